@@ -92,12 +92,6 @@ Print Assumptions C17_flipN_sum.
 (* non-vacuity: a concrete valid group (p = 23, q = 11, g = 2, h = 3 = 2^8), a run that yields a coin, and
    two different openings of one commitment *)
 Definition G23 : group := mkGroup 23 11 2 3.
-Lemma prime_11 : prime 11.
-Proof.
-  apply prime_intro; [lia|]. intros n Hn. apply Zgcd_1_rel_prime.
-  assert (n = 1 \/ n = 2 \/ n = 3 \/ n = 4 \/ n = 5 \/ n = 6 \/ n = 7 \/ n = 8 \/ n = 9 \/ n = 10) as H by lia.
-  repeat (destruct H as [-> | H]; [reflexivity|]). subst. reflexivity.
-Qed.
 Example C17_nonvacuous_valid : valid G23.
 Proof.
   unfold valid, G23, in_sub. cbn [gp gq gg gh].
